@@ -321,3 +321,18 @@ PROPS["C13"] = {
     "quick": [rapid("order", "^TestPropOrder$", 90, shards=5), rapid("concurrent", "^TestPropConcurrent$", 40, shards=4, race=True)],
     "thorough": [rapid("order", "^TestPropOrder$", 1500, shards=8), rapid("concurrent", "^TestPropConcurrent$", 400, shards=8, race=True)],
 }
+
+PROPS["C09"] = {
+    "pkg": "c09",
+    "level": "exploration",
+    "rule": (WORLD_RULE + "Packages additionally carry generated extra files: docs, executables, read-only and world-writable files, empty and 0777 "
+             "directories, in-package links to files (and, rarely, to directories), commit metadata incl. message without id. For every world "
+             "that builds: b1 = Close(), b2 = OpenDir(target), b3 = ExtractArchive(WriteArchive(b1)) into a fresh directory must agree on "
+             "RemotePackages and metadata, RegistryPackages, versions, source addresses, deprecation notes, ChecksumV1, every lookup (forward "
+             "for known, unknown and sub-path addresses, registry and final-registry forms, reverse on sampled paths) made relative to each "
+             "root, and b1's and b3's directory trees must have the same paths, types, contents, permission bits and link targets. "
+             "Non-trivial = registry metadata, package metadata or extra files present; distinct by case hash."),
+    "assumptions": ["worlds whose build fails for stricter reasons (checksum refuses links to directories) are counted, not judged", "file times are not part of 'the same files'"],
+    "quick": [rapid("survive", "^TestPropSurvive$", 400, shards=4)],
+    "thorough": [rapid("survive", "^TestPropSurvive$", 5000, shards=12)],
+}
